@@ -56,7 +56,7 @@ func (c *Client) expressRImpl(args ExpressRArgs) {
 
 			// retry on timeout
 			args.Retries--
-			c.ExpressR(args, args.callback)
+			handOver(c.outpipe, args)
 		} else {
 			// all other results / errors are final
 			args.callback(res)
